@@ -24,10 +24,16 @@
 (* that have a mount in class c.                                           *)
 (*                                                                         *)
 (* Statement (properties.jsonl C05) -> clause:                             *)
-(*  "no replica newer than the signature TTL"          Trash: t < cut      *)
+(*  "no replica newer than the signature TTL"                              *)
+(*        Trash: an effective request names an mtime t <= cut (the         *)
+(*        statement says "newer than"; equality is accepted either way)    *)
 (*  "none on a read-only mount or read-only server"    Trash: ~ERO(m)      *)
 (*  "nothing at all while the block is under-replicated for some storage   *)
 (*   class"                                            Trash: ~UnderRepl   *)
+(*        The statement attaches "counted over distinct physical devices"  *)
+(*        to the next clause only, so here both countings are accepted:    *)
+(*        a trash request is rejected only if the class is under-          *)
+(*        replicated counted per mount (which implies per device).         *)
 (*  "carrying out every computed trash request while no pull succeeds      *)
 (*   still leaves each storage class with at least min(desired, previously *)
 (*   existing) replication, counted over distinct physical devices"        *)
@@ -37,12 +43,23 @@
 (*  "a referenced block with no replica anywhere is reported as lost"      *)
 (*                                                     Finish: lost        *)
 (* Nothing else is demanded (which replicas are kept, where pulls go,      *)
-(* whether anything is trashed at all).  A trash request must name a       *)
-(* replica the layout contains with the mtime it has (change_set.go sends  *)
-(* the observed mtime; keepstore ignores a request with another mtime, so  *)
-(* a mismatch could not be "carried out" and is rejected as malformed).    *)
+(* whether anything is trashed at all).  A trash request that names no     *)
+(* replica of the layout, or another mtime than the replica has, cannot be *)
+(* carried out (keepstore skips a request whose mtime differs): it is a    *)
+(* harmless no-op, subject only to the read-only and under-replication     *)
+(* clauses, and removes nothing in SafeAfter.                              *)
+(*                                                                         *)
+(* PerMount / ClassBlind are FALSE for judging.  The two variants          *)
+(*   PerMount = TRUE    every mount counts as its own device               *)
+(*   ClassBlind = TRUE  every mount counts for every storage class         *)
+(* are used by checks/C05.py only to compute the SIGNATURE of the known    *)
+(* findings KF-C05-1 / KF-C05-4 ("rejected by the contract, accepted under *)
+(* the counting the code uses"), so that a known finding does not swallow  *)
+(* other rejections in the same kind of layout.                            *)
 (***************************************************************************)
 EXTENDS Naturals, FiniteSets, Sequences
+
+CONSTANTS PerMount, ClassBlind     \* BOOLEAN, see above; FALSE for judging
 
 VARIABLES lay,       \* the layout (see above)
           trashed,   \* mounts for which a trash request was computed
@@ -54,7 +71,8 @@ Classes == {"default", "special"}
 
 Mounts == 1 .. lay.n
 ERO(m) == lay.ro[m] \/ lay.srv[m] \in lay.srvro
-DevOf(m) == IF lay.dev[m] = 0 THEN <<"m", m>> ELSE <<"d", lay.dev[m]>>
+DevOf(m) == IF PerMount \/ lay.dev[m] = 0 THEN <<"m", m>> ELSE <<"d", lay.dev[m]>>
+InClass(m, c) == ClassBlind \/ c \in lay.cls[m]
 Des(c) == IF c \in DOMAIN lay.desired THEN lay.desired[c] ELSE 0
 
 Max(S) == CHOOSE x \in S : \A y \in S : y <= x
@@ -63,22 +81,31 @@ Min2(a, b) == IF a < b THEN a ELSE b
 \* devices still holding the block after the trash requests on the mounts in T were carried out
 Holding(T) == {DevOf(m) : m \in {x \in Mounts : lay.has[x]}} \ {DevOf(m) : m \in T}
 DevRepl(d) == Max({lay.repl[m] : m \in {x \in Mounts : DevOf(x) = d}})
-DevInClass(d, c) == \E m \in Mounts : DevOf(m) = d /\ c \in lay.cls[m]
+DevInClass(d, c) == \E m \in Mounts : DevOf(m) = d /\ InClass(m, c)
 
 RECURSIVE SumRepl(_)
 SumRepl(D) == IF D = {} THEN 0 ELSE LET d == CHOOSE x \in D : TRUE IN DevRepl(d) + SumRepl(D \ {d})
 Repl(c, D) == SumRepl({d \in D : DevInClass(d, c)})
 
-UnderRepl == \E c \in Classes : Repl(c, Holding({})) < Des(c)
+\* replication of class c counted per mount (>= the count over distinct devices)
+RECURSIVE SumMounts(_)
+SumMounts(S) == IF S = {} THEN 0 ELSE LET m == CHOOSE x \in S : TRUE IN lay.repl[m] + SumMounts(S \ {m})
+ReplPerMount(c) == SumMounts({m \in Mounts : lay.has[m] /\ InClass(m, c)})
+
+\* under-replicated under both countings
+UnderRepl == \E c \in Classes : ReplPerMount(c) < Des(c)
 SafeAfter(T) == \A c \in Classes : Repl(c, Holding(T)) >= Min2(Des(c), Repl(c, Holding({})))
 Referenced == \E c \in Classes : Des(c) > 0
 NoReplica == \A m \in Mounts : ~lay.has[m]
 
 CInit(l) == lay = l /\ trashed = {} /\ fin = FALSE
 
+\* the request names a replica the layout has, with its mtime: keepstore would carry it out
+Effective(m, t) == m \in Mounts /\ lay.has[m] /\ lay.mt[m] = t
+
 TrashOK(m, t) ==
-    /\ m \in Mounts /\ lay.has[m] /\ lay.mt[m] = t
-    /\ t < lay.cut
+    /\ m \in Mounts
+    /\ Effective(m, t) => t <= lay.cut
     /\ ~ERO(m)
     /\ ~UnderRepl
 
@@ -93,7 +120,7 @@ FinishOK(lost, T) ==
 Trash(m, t) ==
     /\ ~fin
     /\ TrashOK(m, t)
-    /\ trashed' = trashed \cup {m}
+    /\ trashed' = IF Effective(m, t) THEN trashed \cup {m} ELSE trashed
     /\ UNCHANGED <<lay, fin>>
 
 Pull(to, fromsrv) ==
